@@ -16,7 +16,10 @@
 #include "types.h"
 #include "array.h"
 #include "meta.h"
+#include "collection.h"
+#include "values.h"
 #include "layout.h"
+#include "io.h"
 #include "vf.h"
 
 const char *vf_name = "c06_cxx";
@@ -222,18 +225,24 @@ static int op_named(vf_rng *r, bool meta)
 struct libtype {
 	const char *what;
 	const char *wanted;   /* name the library asks for, 0: anonymous */
-	int kind;             /* 3 metatype, 1 generic */
+	int kind;             /* 1 generic, 2 interface, 3 metatype */
 	size_t size;
+	const char *site;     /* counter name: one per registration site */
 	int id;               /* 0: not known yet */
 	unsigned queries;
 };
+/* every lazily registering site of the C++ layer (see notes/C06.md for the list and how it was derived) */
 static libtype libs[] = {
-	{ "metatype::generic *",      "generic",    3, sizeof(void *), 0, 0 },
-	{ "metatype::basic *",        "basic",      3, sizeof(void *), 0, 0 },
-	{ "layout *",                 "mpt.layout", 3, sizeof(void *), 0, 0 },
-	{ "layout::graph *",          "mpt.graph",  3, sizeof(void *), 0, 0 },
-	{ "metatype::value<double> *", 0,           3, sizeof(void *), 0, 0 },
-	{ "metatype::value<TB> *",     0,           3, sizeof(void *), 0, 0 }
+	{ "metatype::generic *",       "generic",    3, sizeof(void *), "site:metatype::generic::pointer_traits", 0, 0 },
+	{ "metatype::basic *",         "basic",      3, sizeof(void *), "site:metatype::basic::pointer_traits", 0, 0 },
+	{ "layout *",                  "mpt.layout", 3, sizeof(void *), "site:layout::pointer_traits", 0, 0 },
+	{ "layout::graph *",           "mpt.graph",  3, sizeof(void *), "site:layout::graph::pointer_traits", 0, 0 },
+	{ "metatype::value<double> *", 0,            3, sizeof(void *), "site:metatype::value<T>::pointer_traits", 0, 0 },
+	{ "metatype::value<TB> *",     0,            3, sizeof(void *), "site:metatype::value<T>::pointer_traits", 0, 0 },
+	{ "group *",                   "mpt.group",  2, sizeof(void *), "site:group::pointer_traits", 0, 0 },
+	{ "io::interface *",           "mpt.io",     2, sizeof(void *), "site:io::interface::get_traits", 0, 0 },
+	{ "point<float>",              0,            1, sizeof(mpt::point<float>), "site:type_properties<point<float>>::id", 0, 0 },
+	{ "point<double>",             0,            1, sizeof(mpt::point<double>), "site:type_properties<point<double>>::id", 0, 0 }
 };
 #define NLIBS ((int) (sizeof(libs) / sizeof(*libs)))
 static bool name_taken[NLIBS];
@@ -243,98 +252,168 @@ static int count_entries(int kind)
 	int n = 0;
 	if (kind == 3) {
 		for (int id = mpt::_TypeMetaPtrBase; id <= mpt::_TypeMetaPtrMax; id++) if (mpt::mpt_metatype_traits(id)) n++;
+	} else if (kind == 2) {
+		for (int id = mpt::_TypeInterfaceBase; id <= mpt::_TypeInterfaceMax; id++) if (mpt::mpt_interface_traits(id)) n++;
 	} else {
 		for (int id = mpt::_TypeValueAdd; id <= mpt::_TypeValueMax; id++) if (mpt::type_traits::get(id)) n++;
 	}
 	return n;
 }
+static int id_of(const mpt::named_traits *nt) { return nt ? (int) nt->type : -1; }
 /* one query of library type k through one of its access paths; returns the id (<= 0: none) */
 static int lib_query(int k, int path)
 {
-	const mpt::named_traits *nt = 0;
 	switch (k) {
 	case 0:
 		switch (path % 4) {
 		case 0: return mpt::type_properties<mpt::metatype::generic *>::id(true);
-		case 1: nt = mpt::metatype::generic::pointer_traits(true); return nt ? (int) nt->type : -1;
+		case 1: return id_of(mpt::metatype::generic::pointer_traits(true));
 		case 2: {
 			const mpt::type_traits *t = mpt::type_properties<mpt::metatype::generic *>::traits();
 			if (t) VF_CHECK(t->size == sizeof(void *), "cxx:libtype:size", "type_properties<metatype::generic *>::traits()->size = %zu", t->size);
-			return mpt::type_properties<mpt::metatype::generic *>::id(false);
+			return mpt::type_properties<mpt::metatype::generic *>::id(true);
 		}
 		default: {
 			/* conversion of a generic metatype to a non-trivial type asks for the id internally */
 			int32_t v = 42; int64_t out = 0;
 			mpt::metatype::generic *g = mpt::metatype::generic::create('i', &v);
-			if (!g) return mpt::type_properties<mpt::metatype::generic *>::id(false);
+			if (!g) return mpt::type_properties<mpt::metatype::generic *>::id(true);
 			int r = g->convert('x', &out);
-			VF_CHECK(r >= 0 && out == 42, "cxx:libtype:generic-convert", "generic('i' 42)->convert('x') = %d, value %lld", r, (long long) out);
+			VF_CHECK(r >= 0 && out == 42, "cxx:libtype:conversion", "generic('i' 42)->convert('x') = %d, value %lld", r, (long long) out);
+			/* id(false) only peeks (a site may keep a cache of its own): ask properly */
+			int me = mpt::type_properties<mpt::metatype::generic *>::id(true);
+			if (me > 0) {
+				mpt::metatype::generic *self = 0;
+				r = g->convert((mpt::type_t) me, &self);
+				VF_CHECK(r >= 0 && self == g, "cxx:libtype:conversion", "generic metatype converted to its own pointer type 0x%x: return %d, %s", me, r, self == g ? "ok" : "other object");
+				vf_count("monitor:conversion-through-library-id", 1);
+			}
 			g->unref();
-			return mpt::type_properties<mpt::metatype::generic *>::id(false);
+			return me;
 		}
 		}
 	case 1:
-		if (path & 1) { nt = mpt::metatype::basic::pointer_traits(true); return nt ? (int) nt->type : -1; }
-		return mpt::type_properties<mpt::metatype::basic *>::id(true);
-	case 2: nt = mpt::layout::pointer_traits(true); return nt ? (int) nt->type : -1;
-	case 3: nt = mpt::layout::graph::pointer_traits(true); return nt ? (int) nt->type : -1;
+		switch (path % 3) {
+		case 0: return mpt::type_properties<mpt::metatype::basic *>::id(true);
+		case 1: return id_of(mpt::metatype::basic::pointer_traits(true));
+		default: {
+			mpt::metatype::basic *b = mpt::metatype::basic::create("text");
+			int me = mpt::type_properties<mpt::metatype::basic *>::id(true);
+			if (b && me > 0) {
+				mpt::metatype::basic *self = 0;
+				int r = b->convert((mpt::type_t) me, &self);
+				VF_CHECK(r >= 0 && self == b, "cxx:libtype:conversion", "basic metatype converted to its own pointer type 0x%x: return %d", me, r);
+				vf_count("monitor:conversion-through-library-id", 1);
+			}
+			if (b) b->unref();
+			return me;
+		}
+		}
+	case 2: return id_of(mpt::layout::pointer_traits(true));
+	case 3: return id_of(mpt::layout::graph::pointer_traits(true));
 	case 4:
-		if (path & 1) { nt = mpt::metatype::value<double>::pointer_traits(true); return nt ? (int) nt->type : -1; }
+		if (path & 1) return id_of(mpt::metatype::value<double>::pointer_traits(true));
 		return mpt::type_properties<mpt::metatype::value<double> *>::id(true);
-	default: nt = mpt::metatype::value<TB>::pointer_traits(true); return nt ? (int) nt->type : -1;
+	case 5: return id_of(mpt::metatype::value<TB>::pointer_traits(true));
+	case 6:
+		switch (path % 4) {
+		case 0: return mpt::type_properties<mpt::group *>::id(true);
+		case 1: return id_of(mpt::group::pointer_traits(true));
+		case 2: {
+			const mpt::type_traits *t = mpt::type_properties<mpt::group *>::traits();
+			if (t) VF_CHECK(t->size == sizeof(void *), "cxx:libtype:size", "type_properties<group *>::traits()->size = %zu", t->size);
+			return mpt::type_properties<mpt::group *>::id(true);
+		}
+		default: {
+			/* an item group hands itself out as group through that id */
+			mpt::item_group *ig = new mpt::item_group;
+			int me = mpt::type_properties<mpt::group *>::id(true);
+			if (me > 0) {
+				mpt::group *gp = 0;
+				int r = ig->convert((mpt::type_t) me, &gp);
+				VF_CHECK(r >= 0 && gp == static_cast<mpt::group *>(ig), "cxx:libtype:conversion", "item_group converted to group pointer type 0x%x: return %d, %s", me, r, gp ? "other object" : "no pointer");
+				vf_count("monitor:conversion-through-library-id", 1);
+			}
+			ig->unref();
+			return me;
+		}
+		}
+	case 7:
+		switch (path % 3) {
+		case 0: return mpt::type_properties<mpt::io::interface *>::id(true);
+		case 1: return id_of(mpt::io::interface::get_traits());
+		default: {
+			const mpt::type_traits *t = mpt::type_properties<mpt::io::interface *>::traits();
+			if (t) VF_CHECK(t->size == sizeof(void *), "cxx:libtype:size", "type_properties<io::interface *>::traits()->size = %zu", t->size);
+			return mpt::type_properties<mpt::io::interface *>::id(true);
+		}
+		}
+	case 8:
+		if (path & 1) {
+			const mpt::type_traits *t = mpt::type_properties<mpt::point<float> >::traits();
+			if (t) VF_CHECK(t->size == sizeof(mpt::point<float>), "cxx:libtype:size", "type_properties<point<float>>::traits()->size = %zu", t->size);
+		}
+		return mpt::type_properties<mpt::point<float> >::id(true);
+	default:
+		return mpt::type_properties<mpt::point<double> >::id(true);
 	}
 }
 static void op_lib(vf_rng *r, bool room)
 {
-	int k = (int) vf_below(r, NLIBS), path = (int) vf_below(r, 4);
+	int k = (int) vf_below(r, NLIBS), path = (int) vf_below(r, 12);
 	libtype &l = libs[k];
-	int before3 = count_entries(3), before1 = count_entries(1);
-	vf_at("library type id");
+	int before[4], delta[4], other = 0;
+	for (int c = 1; c <= 3; c++) before[c] = count_entries(c);
+	vf_at(l.site + 5);
 	int id = lib_query(k, path);
-	int d3 = count_entries(3) - before3, d1 = count_entries(1) - before1;
+	for (int c = 1; c <= 3; c++) { delta[c] = count_entries(c) - before[c]; if (c != l.kind) other += delta[c]; }
 	vf_count("library-type-query", 1);
+	vf_count(l.site, 1);
 	vf_fp_u64(0x500000 + (uint64_t) k * 16 + (uint64_t) path);
-	vf_log("library type %s path %d -> 0x%x (entries added: metatype %d, generic %d)", l.what, path, id, d3, d1);
+	vf_log("library type %s path %d -> 0x%x (entries added: generic %d, interface %d, metatype %d)", l.what, path, id, delta[1], delta[2], delta[3]);
 	l.queries++;
 	if (id <= 0) {
 		VF_CHECK(!l.id, "cxx:libtype:id-not-stable", "id of %s was 0x%x, query %u gives %d", l.what, l.id, l.queries, id);
-		VF_CHECK(!d3 && !d1, "cxx:libtype:extra-registration", "refused query of %s added %d metatype / %d generic entries", l.what, d3, d1);
+		VF_CHECK(!delta[l.kind] && !other, "cxx:libtype:extra-registration", "query of %s that yields no id (%d) added registry entries: generic %d, interface %d, metatype %d", l.what, id, delta[1], delta[2], delta[3]);
 		refused++;
 		vf_count("refused:library-type", 1);
 		if (room) vf_count("observe:refused-below-capacity", 1);
 		return;
 	}
 	if (!l.id) {
-		int lo = l.kind == 3 ? mpt::_TypeMetaPtrBase + 1 : mpt::_TypeValueAdd, hi = l.kind == 3 ? mpt::_TypeMetaPtrMax : mpt::_TypeValueMax;
+		int lo = l.kind == 3 ? mpt::_TypeMetaPtrBase + 1 : l.kind == 2 ? (int) mpt::_TypeInterfaceAdd : (int) mpt::_TypeValueAdd;
+		int hi = l.kind == 3 ? mpt::_TypeMetaPtrMax : l.kind == 2 ? (int) mpt::_TypeInterfaceMax : (int) mpt::_TypeValueMax;
 		check_id(l.what, id, lo, hi);
-		VF_CHECK((l.kind == 3 ? d3 : d1) == 1 && (l.kind == 3 ? d1 : d3) == 0, "cxx:libtype:extra-registration",
-		         "first query of %s (id 0x%x) added %d metatype and %d generic entries, one C++ type stands for one id", l.what, id, d3, d1);
+		VF_CHECK(delta[l.kind] == 1 && !other, "cxx:libtype:extra-registration",
+		         "first query of %s (id 0x%x) added registry entries: generic %d, interface %d, metatype %d; one C++ type stands for one id", l.what, id, delta[1], delta[2], delta[3]);
 		l.id = id;
 		bool named = l.wanted && !name_taken[k];
-		desc d = { l.kind, l.size, named ? l.wanted : "", named, false, true };
+		desc d = { l.kind == 3 ? 3 : l.kind == 2 ? 2 : 1, l.size, named ? l.wanted : "", named, false, true };
 		model[id] = d;
 		accepted++;
 		vf_count("monitor:library-type-first-query", 1);
 		if (l.wanted && name_taken[k]) vf_count("monitor:library-type-name-was-taken", 1);
 	} else {
 		VF_CHECK(id == l.id, "cxx:libtype:id-not-stable", "id of %s was 0x%x, query %u (path %d) gives 0x%x", l.what, l.id, l.queries, path, id);
-		VF_CHECK(!d3 && !d1, "cxx:libtype:extra-registration", "repeated query of %s (id 0x%x) added %d metatype / %d generic entries", l.what, id, d3, d1);
+		VF_CHECK(!delta[l.kind] && !other, "cxx:libtype:extra-registration", "repeated query of %s (id 0x%x) added registry entries: generic %d, interface %d, metatype %d", l.what, id, delta[1], delta[2], delta[3]);
 		vf_count("monitor:library-type-repeated-query", 1);
 	}
 	lookup(id);
 }
-/* the application registers the names the library wants for itself, first */
+/* the application registers the names the library wants for itself, first (same kind: the library's named registration is refused) */
 static void take_names(vf_rng *r, bool all)
 {
 	for (int k = 0; k < NLIBS; k++) {
 		if (!libs[k].wanted || !(all || vf_chance(r, 1, 2))) continue;
-		vf_at("type_traits::add_metatype");
-		const mpt::named_traits *nt = mpt::type_traits::add_metatype(libs[k].wanted);
-		vf_count("type_traits::add_metatype", 1);
+		bool meta = libs[k].kind == 3;
+		vf_at(meta ? "type_traits::add_metatype" : "type_traits::add_interface");
+		const mpt::named_traits *nt = meta ? mpt::type_traits::add_metatype(libs[k].wanted) : mpt::type_traits::add_interface(libs[k].wanted);
+		vf_count(meta ? "type_traits::add_metatype" : "type_traits::add_interface", 1);
 		vf_fp_u64(0x600000 + (uint64_t) k);
 		if (!nt) { refused++; continue; }
-		check_id("type_traits::add_metatype", (int) nt->type, mpt::_TypeMetaPtrBase + 1, mpt::_TypeMetaPtrMax);
-		desc d = { 3, sizeof(void *), libs[k].wanted, true, false, false };
+		if (meta) check_id("type_traits::add_metatype", (int) nt->type, mpt::_TypeMetaPtrBase + 1, mpt::_TypeMetaPtrMax);
+		else check_id("type_traits::add_interface", (int) nt->type, mpt::_TypeInterfaceAdd, mpt::_TypeInterfaceMax);
+		desc d = { meta ? 3 : 2, sizeof(void *), libs[k].wanted, true, false, false };
 		model[(int) nt->type] = d;
 		name_taken[k] = true;
 		accepted++;
@@ -368,10 +447,21 @@ void vf_case(uint64_t idx, vf_rng *r)
 	if (mode >= 6) {
 		/* mode 6: every wanted name is taken before the library's first query, 7: PRNG subset */
 		take_names(r, mode == 6);
-		if (idx % 32 >= 30) {   /* metatype range full: the library gets no id, and must not invent one */
+		/* a range filled by the application first: the library gets no id there, and must not invent one */
+		if (idx % 32 >= 30) {
 			while (mpt::type_traits::add_metatype(0)) { }
 			metafull = true;
 			vf_count("exhausted:metatype", 1);
+		}
+		if (idx % 32 == 14 || idx % 32 == 31) {
+			while (mpt::type_traits::add_interface(0)) { }
+			metafull = true;
+			vf_count("exhausted:interface", 1);
+		}
+		if (idx % 32 == 22) {
+			while (op_add(r) >= 0) { }
+			metafull = true;
+			vf_count("exhausted:generic", 1);
 		}
 		for (int i = 0; i < 24; i++) op_lib(r, !metafull);
 	}
